@@ -541,7 +541,9 @@ TD_GROUP = ""
 
 def run_property(prop, tier, seed, sel, tmp, logdir, args, t0):
     global TD_GROUP
-    TD_GROUP = prop
+    # VERIF_TAG separates the build caches of concurrent runs (e.g. a run against a scratch
+    # worktree given by VERIF_REPO while the regular check of the same property is running)
+    TD_GROUP = prop + os.environ.get("VERIF_TAG", "")
     sh = make_shadow(tmp, sorted({m["file"] for m in sel}))
     timeout_s = args.timeout or TIER_TIMEOUT[tier]
     known = load_known()
